@@ -271,7 +271,16 @@ class FuncInfo:
             return self.parent.self_name()
         return None
 
-    def body_nodes(self, include_nested: bool = False) -> Iterator[ast.AST]:
+    def body_nodes(self, include_nested: bool = False):
+        """Cached list form of _body_nodes (the AST is immutable once parsed)."""
+        cache = self.__dict__.setdefault('_bn_cache', {})
+        r = cache.get(include_nested)
+        if r is None:
+            r = list(self._body_nodes(include_nested))
+            cache[include_nested] = r
+        return r
+
+    def _body_nodes(self, include_nested: bool = False) -> Iterator[ast.AST]:
         """All AST nodes of the body; nested function/class bodies are skipped unless asked
         (lambdas and comprehensions are always included: they run as part of this function
         or are created here)."""
